@@ -329,8 +329,37 @@ func (x *ctx) identRules() {
 		}
 	}
 	x.mat3(fns, false)
+	readerScope := map[*ssa.Function]bool{}
+	if rm := x.P.Func(objRel, "ReadMesh"); rm != nil {
+		for _, g := range scopeOf(rm) {
+			readerScope[g] = true
+		}
+	}
+	x.mat4(fns, readerScope, false)
 	if len(ctl) > 0 {
 		x.mat3(ctl, true)
+		x.mat4(ctl, map[*ssa.Function]bool{}, true)
+		{
+			bad, good := false, true
+			for k := range x.ctlFired["MAT-4"] {
+				if strings.Contains(k, "verifControlIdentBad_MAT4") {
+					bad = true
+				}
+				if strings.Contains(k, "verifControlIdentGood") {
+					good = false
+				}
+			}
+			v := ob.Holds
+			if bad {
+				v = ob.Violation
+			}
+			x.R.Control("MAT-4", "control:verifControlIdentBad_MAT4", controlFile, v, ob.Violation, "positive control must be reported")
+			v = ob.Holds
+			if !good {
+				v = ob.Violation
+			}
+			x.R.Control("MAT-4", "control:verifControlIdentGood", controlFile, v, ob.Holds, "accepted idioms must stay silent")
+		}
 		bad, good := false, true
 		for k := range x.ctlFired["MAT-3"] {
 			if strings.Contains(k, "verifControlIdentBad_MAT3") {
@@ -354,3 +383,277 @@ func (x *ctx) identRules() {
 }
 
 var _ = token.ADD
+
+// MAT-4 — after reading, the list of material ranges is positional data: range
+// k covers the triangles after ranges 0…k-1. Outside the reader itself
+// (ReadMesh and what it calls) a function of the package that works on a mesh's
+// Materials() may therefore only
+//
+//	(a) assign the Material pointer of entries in place — never PrimitiveCount;
+//	(b) hand a list to SetMaterials that is the list it read, entry for entry:
+//	    the very slice, or a copy built in a loop over all of Materials()
+//	    (index 0…len-1) in which the append / indexed store of a copy of entry
+//	    i lies on every path to the loop's back edge (no filtering `continue`),
+//	    with PrimitiveCount of the copy untouched; a re-slice, a conditional
+//	    append or any other construction drops or shifts ranges.
+func (x *ctx) mat4(fns []*ssa.Function, readerScope map[*ssa.Function]bool, ctl bool) {
+	mmT := lookupType(x.modeling, "MeshMaterial")
+	if mmT == nil {
+		return
+	}
+	matField := fieldNamed(mmT, "Material")
+	isMM := func(t types.Type) bool { return isMatSlice(t) }
+	for _, f := range fns {
+		if readerScope[f] {
+			continue
+		}
+		name := x.P.FuncName(f)
+		loops := ssau.Loops(f)
+		var matsCalls []*ssa.Call
+		var setCalls []*ssa.Call
+		var matStores, pcStores []*ssa.Store
+		liveInstrs(f, func(in ssa.Instruction) {
+			switch t := in.(type) {
+			case *ssa.Call:
+				if isMeshMethod(calleeOf(t), "Materials") {
+					matsCalls = append(matsCalls, t)
+				}
+				if isMeshMethod(calleeOf(t), "SetMaterials") {
+					setCalls = append(setCalls, t)
+				}
+			case *ssa.Store:
+				fa, ok := t.Addr.(*ssa.FieldAddr)
+				if !ok {
+					return
+				}
+				ia, ok := fa.X.(*ssa.IndexAddr)
+				if !ok || !isMM(ia.X.Type()) {
+					return
+				}
+				switch ssau.FieldOf(fa) {
+				case matField:
+					matStores = append(matStores, t)
+				case x.pcField:
+					pcStores = append(pcStores, t)
+				}
+			}
+		})
+		if len(matStores) == 0 && len(pcStores) == 0 && (len(setCalls) == 0 || len(matsCalls) == 0) {
+			continue
+		}
+		construct := name + ":range-list"
+		isMats := func(v ssa.Value) bool {
+			c, ok := v.(*ssa.Call)
+			return ok && isMeshMethod(calleeOf(c), "Materials")
+		}
+		// (a)
+		if len(pcStores) > 0 {
+			x.record(ctl, "MAT-4", construct, pcStores[0], nil, "PrimitiveCount of an entry of an existing material list is assigned outside the reader: the range no longer covers the triangles it was read for, later ranges shift", "")
+			continue
+		}
+		// (b)
+		viol, und := "", ""
+		var vat ssa.Instruction
+		for _, sc := range setCalls {
+			if len(matsCalls) == 0 {
+				break
+			}
+			X := sc.Call.Args[1]
+			var appends []*ssa.Call
+			var makes []*ssa.MakeSlice
+			web := map[ssa.Value]bool{}
+			direct, resliced, unknown := false, false, ""
+			var walk func(v ssa.Value, d int)
+			walk = func(v ssa.Value, d int) {
+				if v == nil || web[v] || d > 10 {
+					return
+				}
+				web[v] = true
+				switch t := v.(type) {
+				case *ssa.Phi:
+					for _, e := range t.Edges {
+						walk(e, d+1)
+					}
+				case *ssa.Call:
+					switch {
+					case isMats(t):
+						direct = true
+					case ssau.Builtin(t) == "append":
+						appends = append(appends, t)
+						walk(t.Call.Args[0], d+1)
+					default:
+						unknown = "the list comes from a call of " + describeCond(t)
+					}
+				case *ssa.MakeSlice:
+					makes = append(makes, t)
+				case *ssa.Slice:
+					if _, isPtr := t.X.Type().Underlying().(*types.Pointer); isPtr {
+						return // make([]T, const) lowered to an array
+					}
+					resliced = true
+				case *ssa.Const:
+				case *ssa.ChangeType:
+					walk(t.X, d+1)
+				default:
+					unknown = "the list is " + describeVal(v)
+				}
+			}
+			walk(X, 0)
+			switch {
+			case resliced:
+				viol, vat = "the list handed to SetMaterials is a re-slice of a material list: ranges are dropped, the remaining ones cover the wrong triangles", sc
+			case unknown != "":
+				und, vat = "SetMaterials on a mesh whose Materials() were read: "+unknown+" (construction of the new list not recognised)", sc
+			case direct && len(appends) == 0:
+				// the very list
+			default:
+				// every append / indexed store: full-range loop over Materials(), on every path, copy of entry i
+				fullRangeLoop := func(at *ssa.BasicBlock) (*ssau.Loop, ssa.Value) {
+					l := ssau.InnermostLoop(loops, at)
+					if l == nil {
+						return nil, nil
+					}
+					var idx ssa.Value
+					for b := range l.Blocks {
+						for _, in := range b.Instrs {
+							ia, ok := in.(*ssa.IndexAddr)
+							if !ok || !isMats(ia.X) {
+								continue
+							}
+							r, _ := positionRange(ia.Index, loops)
+							if r == nil || r.loop != l || len(r.init.terms) != 0 || r.init.c != 0 || r.step != 1 || r.slack != 0 || r.cmp.String() != "<" {
+								continue
+							}
+							if bc, ok := stripConv(r.bound).(*ssa.Call); ok && ssau.Builtin(bc) == "len" && isMats(bc.Call.Args[0]) {
+								idx = ia.Index
+							}
+						}
+					}
+					if idx == nil {
+						return nil, nil
+					}
+					return l, idx
+				}
+				copyOfEntry := func(v ssa.Value, idx ssa.Value) string {
+					ld, ok := isLoad(v)
+					if !ok {
+						return "what is put into the new list is not a copy of an entry of Materials()"
+					}
+					switch a := ld.X.(type) {
+					case *ssa.IndexAddr:
+						if isMats(a.X) && a.Index == idx {
+							return ""
+						}
+					case *ssa.Alloc:
+						src := false
+						for _, r := range ssau.Refs(a) {
+							switch t := r.(type) {
+							case *ssa.Store:
+								if t.Addr == ssa.Value(a) {
+									if l2, ok := isLoad(t.Val); ok {
+										if ia, ok := l2.X.(*ssa.IndexAddr); ok && isMats(ia.X) && ia.Index == idx {
+											src = true
+											continue
+										}
+									}
+									return "what is put into the new list is not a copy of entry i of Materials()"
+								}
+							case *ssa.FieldAddr:
+								if ssau.FieldOf(t) == x.pcField {
+									for _, r2 := range ssau.Refs(t) {
+										if st, ok := r2.(*ssa.Store); ok && st.Addr == ssa.Value(t) {
+											return "PrimitiveCount of the copied entry is changed"
+										}
+									}
+								}
+							}
+						}
+						if src {
+							return ""
+						}
+					}
+					return "what is put into the new list is not a copy of entry i of Materials()"
+				}
+				if len(appends) == 0 && len(makes) == 0 {
+					und, vat = "construction of the list handed to SetMaterials not recognised", sc
+					break
+				}
+				for _, ap := range appends {
+					l, idx := fullRangeLoop(ap.Block())
+					if l == nil {
+						viol, vat = "an entry is appended to the list handed to SetMaterials outside a loop over all entries (0…len-1) of Materials(): the new list is not the list read, entry for entry", ap
+						continue
+					}
+					for _, latch := range l.Latch {
+						if !ap.Block().Dominates(latch) {
+							viol, vat = "the loop that rebuilds the material list can go on to the next entry without appending the current one (filtering): ranges are positional — dropping one shifts every later range onto the wrong triangles and leaves the tail uncovered", ap
+						}
+					}
+					if viol != "" {
+						continue
+					}
+					if sl, ok := ap.Call.Args[1].(*ssa.Slice); ok {
+						if arr, ok := sl.X.(*ssa.Alloc); ok {
+							for _, r := range ssau.Refs(arr) {
+								if ia, ok := r.(*ssa.IndexAddr); ok {
+									for _, r2 := range ssau.Refs(ia) {
+										if st, ok := r2.(*ssa.Store); ok && st.Addr == ssa.Value(ia) {
+											if why := copyOfEntry(st.Val, idx); why != "" {
+												viol, vat = why, ap
+											}
+										}
+									}
+								}
+							}
+							continue
+						}
+					}
+					und, vat = "appended entries cannot be inspected", ap
+				}
+				if len(appends) == 0 {
+					// indexed stores into a make([]T, len(Materials()))
+					for _, mk := range makes {
+						lc, ok := stripConv(mk.Len).(*ssa.Call)
+						if !ok || ssau.Builtin(lc) != "len" || !isMats(lc.Call.Args[0]) {
+							viol, vat = "the new material list is not created with the length of the list read", mk
+							continue
+						}
+						stored := false
+						for _, r := range ssau.Refs(mk) {
+							ia, ok := r.(*ssa.IndexAddr)
+							if !ok {
+								continue
+							}
+							for _, r2 := range ssau.Refs(ia) {
+								st, ok := r2.(*ssa.Store)
+								if !ok || st.Addr != ssa.Value(ia) {
+									continue
+								}
+								stored = true
+								l, idx := fullRangeLoop(st.Block())
+								switch {
+								case l == nil || ia.Index != idx:
+									viol, vat = "entries of the new list are not stored at the index of the entry they copy, in a loop over all of Materials()", st
+								default:
+									for _, latch := range l.Latch {
+										if !st.Block().Dominates(latch) {
+											viol, vat = "the loop that rebuilds the material list can skip an entry", st
+										}
+									}
+									if why := copyOfEntry(st.Val, idx); why != "" && viol == "" {
+										viol, vat = why, st
+									}
+								}
+							}
+						}
+						if !stored && viol == "" {
+							und, vat = "the new material list is never filled", mk
+						}
+					}
+				}
+			}
+		}
+		fact := fmt.Sprintf("%d in-place Material assignment(s), no PrimitiveCount assignment, %d SetMaterials call(s) with the list read entry for entry", len(matStores), len(setCalls))
+		x.record(ctl, "MAT-4", construct, vat, f, viol, und, fact)
+	}
+}
